@@ -16,6 +16,7 @@ pub mod c13;
 pub mod c14;
 pub mod c15;
 pub mod c16;
+pub mod c17;
 pub mod c18;
 pub mod c20;
 
@@ -37,6 +38,7 @@ pub fn all() -> Vec<&'static dyn Property> {
         &c14::C14,
         &c15::C15,
         &c16::C16,
+        &c17::C17,
         &c18::C18,
         &c20::C20,
     ]
